@@ -234,6 +234,7 @@ def gen_lines(g, n):
         add("conv", "get %s" % hx(x))
         add("conv", "tav %s" % hx(x))
         add("conv", "bitsize %s" % hx(x))
+        add("conv", "twoadic %s" % hx(x))
     for _ in range(5 * w):
         nd = 1 + r.below(9)
         c = r.below(4)
@@ -563,6 +564,10 @@ def oracle(line, res):
                 if x != 0 and x % 2**32 == 0:
                     return bad("two_adic_valuation(ibz_get(x)) = 0 when 2^32 | x (int truncation)", "two_adic_valuation:2^32-divides-x")
                 return bad("two_adic_valuation wrong")
+        elif op == "twoadic":
+            x = I(args[0])
+            if I(R[0]) != vlib_v2(x):
+                return bad("ibz_two_adic: not the 2-adic valuation of x (0 for x = 0)")
         elif op == "bitsize":
             x = I(args[0])
             if I(R[0]) != max(1, abs(x).bit_length()):
